@@ -88,7 +88,7 @@ def gen_op(rng, name, npool, opts):  # pylint: disable=too-many-branches,too-man
     if name == 'repack':
         return {'op': name, 'mode': rng.choice(opts['repack_modes']), 'callback': rng.random() < 0.2}
     if name == 'repack_pack':
-        return {'op': name, 'pack': rng.randrange(8), 'mode': rng.choice(opts['repack_modes'])}
+        return {'op': name, 'pack': rng.randrange(8), 'mode': rng.choice(opts['repack_modes']), 'callback': rng.random() < 0.3}
     if name == 'delete':
         if rng.random() < 0.25:
             return {'op': name, 'keys': [], 'absent': rng.choice([0, 0, 1]), 'repeats': 0, 'seed': rng.randrange(1 << 20), 'last_indexed': rng.choice([1, 1, 2, 3])}
